@@ -399,6 +399,11 @@ class LowerToIRVisitor(Visitor.DefaultVisitor):
     def v_ConstructPrimitiveExpression(self, expr, ctx):
         values = [self.v_Visit(e, ctx) for e in expr]
 
+        if expr.GetType().IsScalar():
+            # T (x) is a conversion: the one argument has been cast to T
+            # already, there is nothing to put together
+            return values[0]
+
         cpi = LinearIR.ConstructPrimitiveInstruction(
             ctx.AdaptType(expr.GetType()), values
         )
